@@ -6,6 +6,8 @@ import (
 	"fmt"
 	"go/token"
 	"go/types"
+	"os"
+	"runtime/debug"
 	"unicode/utf8"
 
 	"gosym/sym"
@@ -165,6 +167,9 @@ func strBytes(v value) []value {
 		return b
 	case symStr:
 		return v.b
+	}
+	if os.Getenv("GOSYM_HOSTSTACK") != "" {
+		fmt.Fprintf(os.Stderr, "strBytes %#v\n%s\n", v, debug.Stack())
 	}
 	panic(fmt.Sprintf("strBytes: %T", v))
 }
